@@ -1380,7 +1380,8 @@ def iterates_items(fn_node, it, field="self.items"):
     comprehension / append loop?"""
     if q.dotted(it) == field:
         return True
-    if q.src(it) in ("list(%s)" % field, "%s[:]" % field, "tuple(%s)" % field):
+    if q.src(it) in ("list(%s)" % field, "%s[:]" % field, "tuple(%s)" % field, "reversed(%s)" % field, "%s[::-1]" % field,
+                     "reversed(list(%s))" % field):
         return True
     if isinstance(it, ast.Name):
         vals = [v for k, v in assigned_values(fn_node, it.id) if k == "expr"]
